@@ -377,6 +377,7 @@ type dsNode struct {
 	sstore  sm.Store
 	ownQ    []int
 	signed  []int // every message the node signed and queued, in order
+	sigMark int   // len(signed) when the current event started (monitors judge only what this event signed)
 	halted  string
 	decided string // label of the decided block (height w.Height)
 	decHash []byte
